@@ -643,7 +643,7 @@ class WsgiApplication(HttpBase):
                                           ctx.method_request_string, END_COLOR))
 
         ctx.in_header_doc = ctx.transport.headers
-        ctx.in_body_doc = _parse_qs(wsgi_env['QUERY_STRING'])
+        ctx.in_body_doc = _parse_qs(wsgi_env.get('QUERY_STRING', ''))
 
         for k, v in params.items():
              if k in ctx.in_body_doc:
